@@ -85,6 +85,7 @@ class Component:
         self.timeout = timeout
         self.repro = repro
         self.compare = compare
+        self.split = None
 
 
 # --------------------------------------------------------------------------- build
@@ -349,7 +350,14 @@ class Report:
         inputs = list(inputs)
         t = time.time()
         in_s = [sx.dumps(i) for i in inputs]
+        raw_s = in_s
         impl_out = run_impl(modname, comp, in_s, parallel)
+        if comp.split is not None:
+            # the implementation run also produced the concrete input of the model
+            # (e.g. the call list of an adaptively driven history)
+            pairs = [comp.split(inputs[i], sx.loads(impl_out[i])) for i in range(len(inputs))]
+            in_s = [sx.dumps(p[0]) for p in pairs]
+            impl_out = [sx.dumps(p[1]) for p in pairs]
         model_out = run_model(comp.cid, in_s)
         n = len(in_s)
         self.evaluations += n
@@ -412,17 +420,18 @@ class Report:
             if reported >= 3:
                 continue
             reported += 1
-            inp_min, out_min = inputs[i], impl_out[i]
+            raw_min, min_s, out_min = raw_s[i], in_s[i], impl_out[i]
             if comp.shrink and is_chk:
-                inp_min, out_min = self._shrink(modname, comp, inputs[i], impl_out[i])
+                raw_min, min_s, out_min = self._shrink(modname, comp, inputs[i], in_s[i], impl_out[i])
+            ans_i = run_model(comp.chk, [f"({min_s} {out_min})"])[0] if comp.chk is not None else None
             rep = {"kind": "property-fails-on-implementation" if is_chk else "correspondence-broken",
                    "component": comp.name, "component_id": comp.cid,
                    "module": modname,
-                   "input": sx.dumps(inp_min), "implementation": out_min,
-                   "model": run_model(comp.cid, [sx.dumps(inp_min)])[0],
-                   "checker": comp.chk,
+                   "input": raw_min, "model_input": min_s, "implementation": out_min,
+                   "model": run_model(comp.cid, [min_s])[0],
+                   "checker": comp.chk, "checker_answer": ans_i,
                    "correspondence": f"corr:{self.prop}:{comp.name}",
-                   "repro": (comp.repro(inp_min) if comp.repro else
+                   "repro": (comp.repro(sx.loads(raw_min)) if comp.repro else
                              f"./check --replay <this file>   # re-runs component {comp.name} "
                              f"on this input on both sides")}
             if not is_chk:
@@ -434,8 +443,17 @@ class Report:
         pc["wall_s"] += round(time.time() - t, 2)
         return impl_out, model_out
 
-    def _shrink(self, modname, comp, inp, out):
-        best, best_out = inp, out
+    def _eval_one(self, modname, comp, raw):
+        """raw input (nested lists) -> (raw string, model-input string, implementation behaviour)"""
+        rs = sx.dumps(raw)
+        o = run_impl(modname, comp, [rs], parallel=False)[0]
+        if comp.split is not None:
+            mi, beh = comp.split(raw, sx.loads(o))
+            return rs, sx.dumps(mi), sx.dumps(beh)
+        return rs, rs, o
+
+    def _shrink(self, modname, comp, inp, min_s, out):
+        best, best_s, best_out = inp, min_s, out
         budget = 200
         improved = True
         while improved and budget > 0:
@@ -444,17 +462,16 @@ class Report:
                 budget -= 1
                 if budget <= 0:
                     break
-                cs = sx.dumps(cand)
-                o = run_impl(modname, comp, [cs], parallel=False)[0]
-                m = run_model(comp.cid, [cs])[0]
+                rs, ms, o = self._eval_one(modname, comp, cand)
+                m = run_model(comp.cid, [ms])[0]
                 if m in ("-999", "-997"):
                     continue
-                a = run_model(comp.chk, [f"({cs} {o})"])[0]
+                a = run_model(comp.chk, [f"({ms} {o})"])[0]
                 if a != "1":
-                    best, best_out = cand, o
+                    best, best_s, best_out = cand, ms, o
                     improved = True
                     break
-        return best, best_out
+        return sx.dumps(best), best_s, best_out
 
     # -- finish: evidence + exit code
     def finish(self, assumptions, rule, trusted_base):
@@ -568,13 +585,15 @@ def replay(path):
         build_all()
         mod = importlib.import_module(r["module"])
         comp = next(c for c in mod.COMPONENTS if c.cid == r["component_id"])
-        o = run_impl(r["module"], comp, [r["input"]], parallel=False)[0]
-        m = run_model(comp.cid, [r["input"]])[0]
-        print("implementation now:", o)
-        print("model          now:", m)
+        rep = Report(r.get("property", "C00"), "quick", 0)
+        rs, ms, o = rep._eval_one(r["module"], comp, sx.loads(r["input"]))
+        m = run_model(comp.cid, [ms])[0]
+        print("model input        :", ms)
+        print("implementation now :", o)
+        print("model          now :", m)
         if comp.chk is not None:
-            a = run_model(comp.chk, [f"({r['input']} {o})"])[0]
-            print("property checker on implementation behaviour:", a)
+            a = run_model(comp.chk, [f"({ms} {o})"])[0]
+            print("property checker on implementation behaviour:", a, "(1 = holds)")
             return 0 if (a == "1" and o == m) else 1
         return 0 if o == m else 1
     return 0
